@@ -35,6 +35,7 @@ fn main() {
         "values-row" => util::run_cases(rest, values::table_row),
         "cards-drive" => drive::drive(rest),
         "cards-run" => util::run_cases(rest, drive::run_case),
+        "host-register-names" => drive::register_names(rest),
         "cards-show" => drive::show(rest),
         "table-replay" => util::run_cases(rest, tables::replay_case),
         "table-drive" => tables::drive(rest),
